@@ -52,6 +52,13 @@ mag_id = z3.Function("magnitude_of", I, I, I)                        # getattr(v
 is_quantity = z3.Function("is_instance_of_a_registered_quantity_class", I, B)
 units_number = z3.Function("is_a_quantity_whose_magnitude_is_a_number", I, B)
 q_wit = z3.Function("quantity_class_witness", I, I)
+zip_has = z3.Function("zip_has_tuple", I, I, B)                     # zip(it1, it2) yields the pair (a, b)
+f_ok = z3.Function("function_returns_on", I, I, B)                   # function(a, b) returns (else it raises `exception`)
+f_res = z3.Function("function_result_on", I, I, I)
+any_ok = z3.Function("function_returns_on_some_tuple", B)
+is_ok_result = z3.Function("is_the_result_on_an_accepted_tuple", I, B)
+ok_wit_a = z3.Const("accepted_tuple_witness_a", I)
+ok_wit_b = z3.Const("accepted_tuple_witness_b", I)
 first_of = z3.Function("first_item_of_table", I, S)
 fmt_fn = z3.Function("encoder_format", S, I, S)                      # self.format(text, level)
 module_text = z3.Function("encode_module_text", I, I, S)             # self.encode_module(value, level)
@@ -148,6 +155,9 @@ class EncTheory(LexTheory):
             z3.ForAll([v, u], z3.Implies(z3.And(rec_has(u), inst_of(v, u), type_is(mag_id(v, u), type_id("self.numeric_types")),
                                                 z3.Not(type_is(mag_id(v, u), type_id("bool")))), units_number(v)),
                       patterns=[z3.MultiPattern(rec_has(u), inst_of(v, u))]),
+            z3.ForAll([v, u], z3.Implies(z3.And(zip_has(v, u), f_ok(v, u)), z3.And(any_ok(), is_ok_result(f_res(v, u)))),
+                      patterns=[z3.MultiPattern(zip_has(v, u), f_ok(v, u))]),
+            z3.Implies(any_ok(), z3.And(zip_has(ok_wit_a, ok_wit_b), f_ok(ok_wit_a, ok_wit_b))),
             z3.ForAll([v, u], z3.Implies(elem_of(u, v), pylen(v) > 0), patterns=[elem_of(u, v)]),
             z3.ForAll([v], pylen(v) >= 0, patterns=[pylen(v)]),
             z3.ForAll([v, u], z3.Implies(z3.And(inner_ok(v), elem_of(u, v)), _inner_j(u)), patterns=[z3.MultiPattern(inner_ok(v), elem_of(u, v))]),
@@ -162,6 +172,10 @@ class EncTheory(LexTheory):
 
     # ---- kinds ---------------------------------------------------------------------
     def fresh_of_kind(self, kind, nm):
+        if kind == "callable":
+            return FuncV("param:" + nm)
+        if kind == "excclass":
+            return FuncV("ValueError")
         if kind == "pyval":
             return ObjV("pyval", info={"id": fresh(nm + "_id", I)})
         return super().fresh_of_kind(kind, nm)
@@ -211,7 +225,7 @@ class EncTheory(LexTheory):
         return None
 
     def global_name(self, ex, name):
-        if name in ("set", "frozenset", "list", "bool", "str", "datetime", "any", "Token", "isinstance", "len", "super", "enumerate", "max", "abc", "getattr"):
+        if name in ("set", "frozenset", "list", "bool", "str", "datetime", "any", "Token", "isinstance", "len", "super", "enumerate", "max", "abc", "getattr", "zip"):
             return FuncV(name)
         return super().global_name(ex, name)
 
@@ -301,6 +315,11 @@ class EncTheory(LexTheory):
             ex.st.assume(set_has(recv.info["id"], x))
             return Z("str", x)
         return super().getitem(ex, recv, idx)
+
+    def b_zip(self, ex, args, kwargs):
+        if len(args) != 2:
+            raise Untranslatable("zip of other than two iterables")
+        return ObjV("ziptable")
 
     def b_getattr(self, ex, args, kwargs):
         v, nm = args[0], args[1]
@@ -423,6 +442,12 @@ class EncTheory(LexTheory):
 
     # ---- calls -----------------------------------------------------------------------
     def call(self, ex, fv, args, kwargs, node):
+        if isinstance(fv, FuncV) and fv.name == "param:function":
+            a, b = args
+            if ex.branch(f_ok(a.info["id"], b.info["id"]), "function-returns"):
+                return ObjV("pyval", info={"id": f_res(a.info["id"], b.info["id"])})
+            exc = ex.env.get("exception")
+            raise PyRaise(ExcV(exc.name if isinstance(exc, FuncV) else "Exception"))
         if isinstance(fv, FuncV) and fv.name == "Token":
             t = self.sv(args[0])
             if t is None:
@@ -506,6 +531,8 @@ class EncTheory(LexTheory):
             return self.search_loop(ex, node, itv, spec, ordn)
         if self.sv(itv) is not None and getattr(spec, "fall_through", None) is not None:
             return self.search_loop(ex, node, ObjV("chars", info={"text": self.sv(itv)}), spec, ordn)
+        if isinstance(itv, ObjV) and itv.role == "ziptable" and getattr(spec, "fall_through", None) is not None:
+            return self.search_loop(ex, node, ObjV("pairs-of-values", info={"id": z3.IntVal(0)}), spec, ordn)
         if isinstance(itv, ObjV) and itv.role == "records" and getattr(spec, "fall_through", None) is not None:
             return self.search_loop(ex, node, ObjV("recordtable", info={"id": z3.IntVal(0)}), spec, ordn)
         if isinstance(itv, ObjV) and itv.role == "pyval" and getattr(spec, "fall_through", None) is not None:
@@ -530,9 +557,14 @@ class EncTheory(LexTheory):
         member = ((lambda x: char_of(x, k)) if chars else (lambda x: rec_has(x)) if records else
                   (lambda x: elem_of(x, k)) if elements else (lambda x: set_has(k, x)))
         pairs = table.role == "pairs"
+        vpairs = table.role == "pairs-of-values"
         c = ex.path.choose(2, f"for@{node.lineno}")
         if c == 0:
-            if pairs:
+            if vpairs:
+                x = (fresh("tuple_a", I), fresh("tuple_b", I))
+                ex.st.assume(zip_has(x[0], x[1]))
+                ex.assign(node.target, TupV([ObjV("pyval", info={"id": x[0]}), ObjV("pyval", info={"id": x[1]})]))
+            elif pairs:
                 x = (fresh("member_open", S), fresh("member_close", S))
                 ex.st.assume(pairs_has(k, x[0], x[1]))
                 ex.assign(node.target, TupV([Z("str", x[0]), Z("str", x[1])]))
@@ -559,7 +591,10 @@ class EncTheory(LexTheory):
                 ex.oblige(f"{q}:{lname}:falls-through-only-when:{nm}", f)
             raise PathEnd()
         # normal end of the loop: every member fell through
-        if pairs:
+        if vpairs:
+            xa, xc = z3.Const("bound_tuple_a", I), z3.Const("bound_tuple_b", I)
+            closure = z3.ForAll([xa, xc], z3.Implies(zip_has(xa, xc), z3.And(*[f for _, f in J(ex.env, ex.st, (xa, xc))])))
+        elif pairs:
             xa, xc = z3.Const("bound_member_open", S), z3.Const("bound_member_close", S)
             closure = z3.ForAll([xa, xc], z3.Implies(pairs_has(k, xa, xc), z3.And(*[f for _, f in J(ex.env, ex.st, (xa, xc))])))
         else:
